@@ -275,6 +275,7 @@ def run(prog: Program, rep: Report, tier: str) -> None:
     rep.rule("R13.7", "instants are never converted to a unit coarser than the clock's seconds", 4)
     instant_resolution(prog, rep, "R13.7")
     share(prog, rep, "C18", ("R18.6",), "R13.8", "a version-1 configuration hands start, stop, dt and reference to the clock keys they belong to", 3, only=lambda o: o.construct.startswith("time.") or "time_control" in o.construct)
+    share(prog, rep, "C19", ("R19.6",), "R13.9", "after a warm start the running clock is the time of step 0, then advances with the steps", 3)
 
 
 
